@@ -311,7 +311,8 @@ func genReq(t *rapid.T, spec *SysSpec, prof IngressProfile) *ReqSpec {
 	}
 	// credentials
 	if len(r.Basic) > 0 {
-		switch rapid.IntRange(0, 5).Draw(t, "basic") {
+		last := r.Basic[len(r.Basic)-1]
+		switch rapid.IntRange(0, 8).Draw(t, "basic") {
 		case 0:
 		case 1:
 			rs.Basic = &KV{"alice", "wrong"}
@@ -319,6 +320,13 @@ func genReq(t *rapid.T, spec *SysSpec, prof IngressProfile) *ReqSpec {
 			rs.Basic = &KV{"mallory", "s3cret"}
 		case 3:
 			rs.Basic = &KV{"alice", "s3cret "}
+		case 4:
+			// one configured user with another configured user's password
+			rs.Basic = &KV{r.Basic[0].Name, last.Value}
+		case 5:
+			rs.Basic = &KV{last.Name, r.Basic[0].Value}
+		case 6:
+			rs.Basic = &KV{last.Name, last.Value}
 		default:
 			rs.Basic = &KV{r.Basic[0].Name, r.Basic[0].Value}
 		}
